@@ -7,7 +7,7 @@ use ruint::Uint;
 use serde_json::{json, Map, Value};
 use std::{
     cell::RefCell,
-    collections::{BTreeMap, HashSet},
+    collections::{BTreeMap, HashMap, HashSet},
     io::{Seek, Write},
     rc::Rc,
     panic::{self, AssertUnwindSafe},
@@ -296,6 +296,13 @@ pub struct Mon {
     path_sigs: HashSet<u128>,
     journal: Option<std::fs::File>,
     time_up_flag: bool,
+    /// Light lanes: end (seconds since start) of the time slice of the width being worked on, so that the
+    /// budget is spread over all enabled widths instead of being spent on the first ones.
+    width_slice_end: f64,
+    widths_seen: usize,
+    drought: u32,
+    light_counts: HashMap<(String, usize), u64>,
+    width_time_ups: u64,
     /// Values produced by the current case (width, limbs); used by history
     /// workloads that feed results back into later cases.
     pub produced: Vec<(usize, Vec<u64>)>,
@@ -408,6 +415,11 @@ impl Mon {
             path_sigs: HashSet::new(),
             journal,
             time_up_flag: false,
+            width_slice_end: f64::INFINITY,
+            widths_seen: 0,
+            drought: 0,
+            light_counts: HashMap::new(),
+            width_time_ups: 0,
             produced: Vec::new(),
         }
     }
@@ -431,7 +443,15 @@ impl Mon {
             return true;
         }
         self.light_deadline();
-        (self.keep_rng.u64() >> 11) as f64 / (1u64 << 53) as f64 <= self.cfg.light
+        // past this width's time slice the rest of its directed corpus is skipped
+        if self.start.elapsed().as_secs_f64() > self.width_slice_end {
+            return false;
+        }
+        // thinning with a bounded drought: after 16 rejections in a row the next candidate is taken, so every
+        // directed list of some length contributes (the per-operation decay in `case` bounds the total)
+        let pick = (self.keep_rng.u64() >> 11) as f64 / (1u64 << 53) as f64 <= self.cfg.light || self.drought >= 16;
+        self.drought = if pick { 0 } else { self.drought + 1 };
+        pick
     }
 
     pub fn is_light(&self) -> bool {
@@ -448,14 +468,54 @@ impl Mon {
     }
 
     pub fn time_up(&mut self) -> bool {
-        if !self.time_up_flag && self.start.elapsed().as_secs_f64() > self.cfg.max_seconds {
+        let el = self.start.elapsed().as_secs_f64();
+        if self.cfg.light > 0.0 && el > self.width_slice_end {
+            // this width's slice is used up (not sticky: the next width gets its own slice)
+            self.width_time_ups += 1;
+            return true;
+        }
+        if !self.time_up_flag && el > self.cfg.max_seconds {
             self.time_up_flag = true;
         }
         self.time_up_flag
     }
 
-    pub fn width_enabled(&self, bits: usize) -> bool {
-        self.cfg.widths.as_ref().map_or(true, |w| w.contains(&bits))
+    /// Called by the workloads once per width, in order. In the light lanes (which always name their widths)
+    /// each enabled width gets an equal slice of the lane's time budget.
+    fn width_on(&self, bits: usize) -> bool {
+        match self.cfg.widths.as_ref() {
+            None => true,
+            Some(w) => match w.iter().position(|x| *x == bits) {
+                None => false,
+                // light lanes: the shards of a lane own disjoint subsets of the widths (when there are enough)
+                Some(i) => {
+                    let n = (self.cfg.nshards as usize).max(1);
+                    self.cfg.light <= 0.0 || w.len() < 2 * n || i % n == self.cfg.shard as usize
+                }
+            },
+        }
+    }
+
+    pub fn width_enabled(&mut self, bits: usize) -> bool {
+        let on = self.width_on(bits);
+        if on && self.cfg.light > 0.0 {
+            if let Some(w) = self.cfg.widths.as_ref() {
+                self.widths_seen += 1;
+                let n = self.light_share(w.len()).max(1);
+                self.width_slice_end = self.cfg.max_seconds * (self.widths_seen.min(n) as f64) / (n as f64);
+            }
+        }
+        on
+    }
+
+    /// Light lanes split the named widths between the shards of the lane (width i belongs to shard
+    /// i mod nshards), so every width gets nshards times the time; returns how many widths this shard owns.
+    fn light_share(&self, nwidths: usize) -> usize {
+        let (s, n) = (self.cfg.shard as usize, (self.cfg.nshards as usize).max(1));
+        if nwidths < 2 * n {
+            return nwidths;
+        }
+        (0..nwidths).filter(|i| i % n == s).count()
     }
 
     pub fn op_enabled(&self, op: &str) -> bool {
@@ -501,8 +561,21 @@ impl Mon {
         if self.cfg.light > 0.0 && self.generated % 16 == 0 {
             self.light_deadline();
         }
-        if !self.width_enabled(bits) || !self.op_enabled(op) {
+        if !self.width_on(bits) || !self.op_enabled(op) {
             return;
+        }
+        if self.cfg.light > 0.0 {
+            // light lanes buy breadth: after the first few cases of an operation at a width, further ones are
+            // executed with quickly falling probability, so that one long directed list cannot use up the budget
+            let c = self.light_counts.entry((op.to_string(), bits)).or_insert(0);
+            *c += 1;
+            const CAP: f64 = 2.0;
+            if (*c as f64) > CAP {
+                let p = (CAP / *c as f64).powi(2);
+                if ((self.keep_rng.u64() >> 11) as f64 / (1u64 << 53) as f64) > p {
+                    return;
+                }
+            }
         }
         let h = case_hash(op, bits, &args);
         let modulus = self.cfg.nshards * self.cfg.stride;
@@ -864,7 +937,7 @@ impl Mon {
             "exhaustive": self.exhaustive,
             "notes": self.notes,
             "samples": self.samples,
-            "truncated_by_time": self.time_up_flag,
+            "truncated_by_time": self.time_up_flag || self.width_time_ups > 0,
             "wall_s": wall,
         });
         let text = rep.to_string();
